@@ -35,6 +35,7 @@ fn warm_up() {
     worlds::hierarchy::warm_up();
     worlds::batched::warm_up();
     worlds::authz::warm_up();
+    worlds::frontends::warm_up();
 }
 
 fn run_world<W: World>(world: W, tier: Tier) -> i32 {
@@ -192,6 +193,7 @@ macro_rules! dispatch {
             "hierarchy" | "C04" => $f(worlds::hierarchy::Hierarchy $(, $arg)*),
             "authz" | "C01" => $f(worlds::authz::Authz $(, $arg)*),
             "policyset" | "C08" => $f(worlds::policyset::PolicySetWorld $(, $arg)*),
+            "frontends" | "C19" => $f(worlds::frontends::Frontends $(, $arg)*),
             "batched" | "C15" => $f(worlds::batched::Batched $(, $arg)*),
             other => harness_error(&format!("unknown world/property {other}")),
         }
@@ -251,6 +253,7 @@ fn main() {
             println!("batched");
             println!("authz");
             println!("policyset");
+            println!("frontends");
             0
         }
         "digest" => {
